@@ -302,6 +302,7 @@ static void scene_body(char* line) {
       mjs_setString(eq->name1, name);
     }
   }
+  s->option.disableflags |= mjDSBL_ISLAND;   // mj_compile runs the engine: keep island discovery out of it (enabled below)
   s->memory = (mjtSize)1 << 29;   // 512 MB arena+stack: large scenes must not run into resource errors
   s->option.jacobian = jac ? mjJAC_SPARSE : mjJAC_DENSE;
   s->option.cone = cone ? mjCONE_ELLIPTIC : mjCONE_PYRAMIDAL;
